@@ -327,6 +327,14 @@ pub fn run(ctx: &mut Ctx) {
                 // 1 latch + 9 + 2 = 12 codewords: exactly the 16x16 symbol, two symbol characters left after the run
                 eval(ctx, &inp, &Script { runs: vec![(Mode::Edifact, 12), (Mode::Ascii, 2)], pair_digits: false, cap: 12, ..base.clone() }, "tail_codeword_sweep");
                 eval(ctx, &[&b"ABCDEFGHIJKL"[..], &[u, t][..]].concat(), &Script { runs: vec![(Mode::Edifact, 12), (Mode::Ascii, 2)], pair_digits: false, cap: 12, ..base.clone() }, "tail_codeword_sweep");
+                // a latch directly in front of the end-of-symbol tail (empty run; legal by the letter of the end-of-symbol
+                // rules although no known encoder emits it): ASCII, latch, then one / two symbol characters in ASCII
+                for mode in [Mode::C40, Mode::Text, Mode::X12] {
+                    eval(ctx, &[b'A', t], &Script { runs: vec![(Mode::Ascii, 1), (mode, 0), (Mode::Ascii, 1)], cap: 3, ..base.clone() }, "empty_run_before_tail");
+                    eval(ctx, &[b'A', b'B', b'C', t], &Script { runs: vec![(Mode::Ascii, 3), (mode, 0), (Mode::Ascii, 1)], cap: 5, ..base.clone() }, "empty_run_before_tail");
+                }
+                eval(ctx, &[b'A', b'B', b'C', t], &Script { runs: vec![(Mode::Ascii, 3), (Mode::Edifact, 0), (Mode::Ascii, 1)], cap: 5, ..base.clone() }, "empty_run_before_tail");
+                eval(ctx, &[b'A', b'B', t, u], &Script { runs: vec![(Mode::Ascii, 2), (Mode::Edifact, 0), (Mode::Ascii, 2)], pair_digits: false, cap: 5, ..base.clone() }, "empty_run_before_tail");
                 // C40 / Text / X12: unlatch + ASCII at the end (rule c), implicit (rule d), and 254 + two codewords
                 for mode in [Mode::C40, Mode::Text, Mode::X12] {
                     let mut inp = b"AAA".to_vec();
@@ -338,6 +346,37 @@ pub fn run(ctx: &mut Ctx) {
                     eval(ctx, &inp, &Script { runs: vec![(mode, 3), (Mode::Ascii, 1)], cap: 8, ..base.clone() }, "tail_codeword_sweep");
                     inp.push(u);
                     eval(ctx, &inp, &Script { runs: vec![(mode, 3), (Mode::Ascii, 2)], pair_digits: false, cap: 8, ..base.clone() }, "tail_codeword_sweep");
+                }
+            }
+        }
+    }
+    // Macro 05/06 symbols whose body ends with RS EOT, is itself an envelope, or contains header pieces
+    {
+        let base = Script { runs: vec![], header: Header::None, eci: None, pair_digits: true, b256_len0: false, implicit_unlatch: true, implicit_pair: false, trailing_254: true, cap: 0 };
+        let bodies: Vec<Vec<u8>> = vec![
+            b"\x1e\x04".to_vec(), b"AB\x1e\x04".to_vec(), b"ABC\x1e\x04".to_vec(), b"\x04".to_vec(), b"\x1e".to_vec(), b"12\x1e\x04\x1e\x04".to_vec(),
+            [dec::MACRO05_HEAD, &b"X"[..], dec::MACRO_TRAIL].concat(), [dec::MACRO06_HEAD, &b"X"[..], dec::MACRO_TRAIL].concat(), [dec::MACRO05_HEAD, &b"XY"[..]].concat(), dec::MACRO05_HEAD.to_vec(),
+        ];
+        let mut item = 0usize;
+        for body in &bodies {
+            for header in [Header::Macro05, Header::Macro06, Header::None, Header::Fnc1] {
+                for mode in Mode::ALL {
+                    if ctx.mine(item) {
+                        let n = body.len();
+                        let mut variants: Vec<Vec<(Mode, usize)>> = vec![vec![(mode, n)]];
+                        if n >= 3 {
+                            variants.push(vec![(Mode::Ascii, 1), (mode, n - 1)]);
+                            variants.push(vec![(mode, n - 2), (Mode::Ascii, 2)]);
+                            variants.push(vec![(mode, n - 1), (Mode::Ascii, 1)]);
+                        }
+                        for runs in variants {
+                            if runs.windows(2).any(|w| w[0].0 == w[1].0) {
+                                continue;
+                            }
+                            eval_caps(ctx, body, &Script { runs, header, ..base.clone() }, "macro_body_like_envelope");
+                        }
+                    }
+                    item += 1;
                 }
             }
         }
